@@ -33,8 +33,19 @@ func c15StoreState(s *Store) string {
 	return fmt.Sprintf("synchronous=%s query_only=%s wal_autocheckpoint=%s", c15StoreSetting(s, "PRAGMA synchronous"), c15StoreSetting(s, "PRAGMA query_only"), c15StoreSetting(s, "PRAGMA wal_autocheckpoint"))
 }
 
+// c15Params: parameters to attach to the statement with the given SQL text (set per case)
+var c15Params map[string][]*proto.Parameter
+
+func c15Attach(r *proto.Request) {
+	for _, st := range r.Statements {
+		if ps, ok := c15Params[st.Sql]; ok {
+			st.Parameters = ps
+		}
+	}
+}
+
 func TestVerifC15Store(t *testing.T) {
-	rep := vfNewReport("C15", "store level: setting-changing PRAGMA spellings (call syntax, schema prefix, comments, quoting, multi-statement text, EXPLAIN prefix, byte-order mark, case) x entry point (Execute, Query none/weak/strong/linearizable, Request none/strong) x position (only statement, second statement, in a transaction) against a real single-node Store; non-trivial always; distinct by (text, entry point, position)")
+	rep := vfNewReport("C15", "store level: setting-changing PRAGMA spellings (call syntax, schema prefix, comments, quoting, multi-statement text, EXPLAIN prefix, byte-order mark, case) x entry point (Execute, Query none/weak/strong/linearizable, Request none/strong) x position (only statement, second statement, in a transaction) x statement shape (plain, with a superfluous positional / named / two bound parameters) against a real single-node Store; non-trivial always; distinct by (text, entry point, position)")
 	defer rep.Write()
 	s, ln := mustNewStore(t)
 	defer ln.Close()
@@ -67,7 +78,9 @@ func TestVerifC15Store(t *testing.T) {
 	}
 	entries := []entry{
 		{"Execute", func(st []string, tx bool) error {
-			_, _, err := s.Execute(context.Background(), executeRequestFromStrings(st, false, tx))
+			er := executeRequestFromStrings(st, false, tx)
+			c15Attach(er.Request)
+			_, _, err := s.Execute(context.Background(), er)
 			return err
 		}},
 	}
@@ -76,6 +89,7 @@ func TestVerifC15Store(t *testing.T) {
 		entries = append(entries, entry{"Query/" + lvl.String(), func(st []string, tx bool) error {
 			qr := queryRequestFromStrings(st, false, tx, false)
 			qr.Level = lvl
+			c15Attach(qr.Request)
 			_, _, _, err := s.Query(context.Background(), qr)
 			return err
 		}})
@@ -83,10 +97,16 @@ func TestVerifC15Store(t *testing.T) {
 	for _, lvl := range []proto.ConsistencyLevel{proto.ConsistencyLevel_NONE, proto.ConsistencyLevel_STRONG} {
 		lvl := lvl
 		entries = append(entries, entry{"Request/" + lvl.String(), func(st []string, tx bool) error {
-			_, _, _, err := s.Request(context.Background(), executeQueryRequestFromStrings(st, lvl, false, tx, false))
+			eqr := executeQueryRequestFromStrings(st, lvl, false, tx, false)
+			c15Attach(eqr.Request)
+			_, _, _, err := s.Request(context.Background(), eqr)
 			return err
 		}})
 	}
+	// statement shape: how the dangerous text travels inside the request. SQLite ignores bound
+	// parameters that the text does not reference, so a PRAGMA may carry superfluous ones.
+	shapes := []string{"plain", "positional-parameter", "named-parameter", "two-parameters"}
+	c15Params = nil
 	for _, sql := range texts {
 		for _, e := range entries {
 			for pos, mk := range []func() ([]string, bool){
@@ -94,22 +114,38 @@ func TestVerifC15Store(t *testing.T) {
 				func() ([]string, bool) { return []string{"SELECT 1", sql}, false },
 				func() ([]string, bool) { return []string{sql, "SELECT 2"}, true },
 			} {
-				st, tx := mk()
-				err := e.run(st, tx)
-				after := c15StoreState(s)
-				key := fmt.Sprintf("%q via %s position %d", sql, e.name, pos)
-				rep.Case(key, true)
-				rep.Count("entry:" + e.name)
-				if err == nil || !strings.Contains(err.Error(), "disallowed pragma") {
-					rep.Fail("store-accepts-dangerous-pragma:"+e.name, fmt.Sprintf("%s: expected the request to be refused as a disallowed pragma, got error %v", key, err),
-						map[string]interface{}{"sql": sql, "entry": e.name, "statements": st, "tx": tx, "error": fmt.Sprint(err)})
+				for _, shape := range shapes {
+					if shape != "plain" && pos != 0 && !vfThorough() {
+						continue // quick tier: parameterised shapes only as the sole statement
+					}
+					st, tx := mk()
+					c15Params = map[string][]*proto.Parameter{}
+					switch shape {
+					case "positional-parameter":
+						c15Params[sql] = []*proto.Parameter{{Value: &proto.Parameter_I{I: 1}}}
+					case "named-parameter":
+						c15Params[sql] = []*proto.Parameter{{Value: &proto.Parameter_S{S: "v"}, Name: "x"}}
+					case "two-parameters":
+						c15Params[sql] = []*proto.Parameter{{Value: &proto.Parameter_I{I: 1}}, {Value: &proto.Parameter_B{B: true}}}
+					}
+					err := e.run(st, tx)
+					c15Params = nil
+					after := c15StoreState(s)
+					key := fmt.Sprintf("%q (%s) via %s position %d", sql, shape, e.name, pos)
+					rep.Count("shape:" + shape)
+					rep.Case(key, true)
+					rep.Count("entry:" + e.name)
+					if err == nil || !strings.Contains(err.Error(), "disallowed pragma") {
+						rep.Fail("store-accepts-dangerous-pragma:"+e.name+":"+shape, fmt.Sprintf("%s: expected the request to be refused as a disallowed pragma, got error %v", key, err),
+							map[string]interface{}{"sql": sql, "entry": e.name, "statements": st, "tx": tx, "shape": shape, "error": fmt.Sprint(err)})
+					}
+					if after != base {
+						rep.Fail("store-setting-changed:"+e.name+":"+shape, fmt.Sprintf("%s: write-connection settings changed from %s to %s", key, base, after),
+							map[string]interface{}{"sql": sql, "entry": e.name, "statements": st, "tx": tx, "shape": shape, "before": base, "after": after})
+						base = after
+					}
+					rep.TracesValidated++
 				}
-				if after != base {
-					rep.Fail("store-setting-changed:"+e.name, fmt.Sprintf("%s: write-connection settings changed from %s to %s", key, base, after),
-						map[string]interface{}{"sql": sql, "entry": e.name, "statements": st, "tx": tx, "before": base, "after": after})
-					base = after
-				}
-				rep.TracesValidated++
 			}
 		}
 	}
